@@ -150,8 +150,41 @@ Next == Reset \/ Explore \/ PolicyAct \/ ActOnStaleChoice \/ (\E o \in {"cont", 
 Spec == Init /\ [][Next]_vars
 ----------------------------------------------------------------------------
 (* C01 *)
-StoredFaithful == \A k \in 1..Len(stored) :
+RowsFaithful == \A k \in 1..Len(stored) :
    StoreMatches(stored[k], produced[k].obs, produced[k].act, [obs |-> produced[k].next, r |-> produced[k].r, term |-> produced[k].term])
+(* The experience record a model-based learner derives from the transitions it keeps (Dyna-Q's Counter: per (o, a, o')
+   the number of kept transitions and the list of their rewards, what the model update and planning learn from) is a
+   function of `stored`: one entry per (o, a, o') that occurs.  It must equal exactly the multiset of environment steps:
+   each entry counts the produced steps (o, a) -> o' and lists the rewards of exactly those steps in order, there is no
+   entry for a transition that never happened and every transition that happened has one.  Same entry operators
+   (CStepsOf, CRecordEntryMatches) as LoopTrace.tla evaluates on the recorded Counter (EvExperience).
+   Deviation "shared_reward_list": the reward lists of all successors of one (o, a) pair are ONE list
+   (`[[]] * n_states`), so every (o, a, o'') - also those that never happened - holds the rewards of all steps from (o, a) to any successor. *)
+KeysOf(s) == {<<s[k].obs, s[k].act, s[k].next>> : k \in 1..Len(s)}
+RewardsOf(st) == [i \in 1..Len(st) |-> st[i].r]
+RecordOf(s) == [key \in KeysOf(s) |-> LET st == CStepsOf(s, key[1], key[2], key[3]) IN [n |-> Len(st), rs |-> RewardsOf(st)]]
+RecordShared(s) ==
+  [key \in {<<s[k].obs, s[k].act, s[j].next>> : k \in 1..Len(s), j \in 1..Len(s)} |->
+     [n |-> Len(CStepsOf(s, key[1], key[2], key[3])),
+      rs |-> RewardsOf(SelectSeq(s, LAMBDA p : p.obs = key[1] /\ p.act = key[2]))]]
+ExperienceRecord == IF "shared_reward_list" \in DEV THEN RecordShared(stored) ELSE RecordOf(stored)
+RecordFaithful ==
+  LET rec == ExperienceRecord
+      env == SubSeq(produced, 1, Len(stored))   \* the steps whose transition has been handed to the store
+  IN /\ \A key \in DOMAIN rec : CRecordEntryMatches(rec[key], CStepsOf(env, key[1], key[2], key[3]))
+     /\ KeysOf(env) \subseteq DOMAIN rec
+(* The batch an on-policy routine prepares from its rollout and hands to the policy / value update is a set of rows
+   in some layout (time-major, env-major, shuffled): every row must be ONE real environment step (CRowVerdict, the operator
+   LoopTrace.tla evaluates on the arguments of the interposed update functions, EvLearnRows).
+   Deviation "misaligned_batch": the columns of the batch are flattened in different orders, so row k pairs the
+   observation (reward, successor, flag) of one step with the action of another. *)
+PreparedBatch == IF "misaligned_batch" \in DEV
+                 THEN {[stored[k] EXCEPT !.act = stored[Len(stored) + 1 - k].act] : k \in 1..Len(stored)}
+                 ELSE {stored[k] : k \in 1..Len(stored)}
+LearnRowsFaithful ==
+  LET env == {produced[k] : k \in 1..Len(stored)}
+  IN \A brow \in PreparedBatch : CRowVerdict(brow, {"act", "r", "next", "term"}, env) = "ok"
+StoredFaithful == RowsFaithful /\ RecordFaithful /\ LearnRowsFaithful
 FirstOfEpisodeFromReset == \A k \in 1..Len(stored) : stored[k].next[2] = 1 => stored[k].obs = <<stored[k].next[1], 0>>
 CondFaithful == (pc = "env" /\ pend = "policy") => CondMatches(cond, last)
 (* C11 *)
